@@ -22,3 +22,55 @@ Theorem C14_code_tie_lazy : forall sgn (nf : transform) (D : list Z -> list Z * 
     else Some (zs content ++ 0%Z :: skipn (S (length content)) norm0, Z.of_N size).
 Proof. exact tie_nfkd_lazy_mirror. Qed.
 Print Assumptions C14_code_tie_lazy.
+
+(* ---- the tie to the code: src/polyseed.c as TRANSLATED on this run (Gen/CApi.v) ---- *)
+From Coq Require Import String.
+From PS Require Import Base GFDefs PackDefs StoreDefs MiscDefs StrDefs LangDefs ApiDefs SpecDefs SpecApi GFProofs PackProofs StoreProofs RefineProofs RoundTrip TraceProofs FrameProofs SafetyProofs CTieBase CTieLang CTiePhrase CTiePhraseEv CTieSplit CTieApi CTieDecode CTieEncode CTieLocals CTieInject CTieCmp CTieSearch CTieClosed CodeTheorems CodeMachine.
+From PS.Gen Require Import Consts PrivConsts Langs.
+From PS.Gen Require CFuns.
+From PS.Gen Require CApi.
+
+(* ON THE CODE: on every well-formed call the translated code terminates within the fuel and does not reach the fault value (it equals the mirror step, which never faults) *)
+Theorem C14_code_tie_machine_no_fault :
+  forall (sgn : bool) (fuel : nat) (ext : Z -> list Z -> Z) (OKW : bytes -> Prop),
+         (forall (li : nat) (L : lang) (w : bytes),
+          OKW w -> nth_error langs li = Some L -> ext (Z.of_nat li) (zs w) = enc (lang_search sgn L w)) ->
+         (forall t : bytes, no_nul t -> (Datatypes.length t + 2 <= fuel)%nat -> OKW t) ->
+         (18 <= fuel)%nat ->
+         forall (cs : state) (a : astate) (o : op),
+         R cs a ->
+         op_ok o ->
+         lang_ok_op o ->
+         op_ready sgn fuel cs o ->
+         (forall h : N, touches o = Some h -> heap_get (st_heap cs) h <> None) ->
+         snd (fst (cstep sgn fuel ext cs o)) <> OutFault.
+Proof. exact @code_no_fault. Qed.
+Print Assumptions C14_code_tie_machine_no_fault.
+
+(* ON THE CODE: the status a constructor of the translated code returns is one of those documented for it *)
+Theorem C14_code_tie_machine_status_range :
+  forall (sgn : bool) (fuel : nat) (ext : Z -> list Z -> Z) (OKW : bytes -> Prop),
+         (forall (li : nat) (L : lang) (w : bytes),
+          OKW w -> nth_error langs li = Some L -> ext (Z.of_nat li) (zs w) = enc (lang_search sgn L w)) ->
+         (forall t : bytes, no_nul t -> (Datatypes.length t + 2 <= fuel)%nat -> OKW t) ->
+         (18 <= fuel)%nat ->
+         forall (cs : state) (a : astate) (o : op),
+         R cs a ->
+         op_ok o ->
+         op_ready sgn fuel cs o ->
+         match o with
+         | OpCreate _ _ _ _ =>
+             status_in [ST_OK; ST_UNSUPPORTED; ST_MEMORY] (snd (fst (cstep sgn fuel ext cs o)))
+         | OpLoad _ _ =>
+             status_in [ST_OK; ST_FORMAT; ST_CHECKSUM; ST_UNSUPPORTED; ST_MEMORY]
+               (snd (fst (cstep sgn fuel ext cs o)))
+         | OpDecode _ _ _ =>
+             status_in [ST_OK; ST_NUM_WORDS; ST_LANG; ST_MULT_LANG; ST_CHECKSUM; ST_UNSUPPORTED; ST_MEMORY]
+               (snd (fst (cstep sgn fuel ext cs o)))
+         | OpDecodeExplicit _ _ _ _ =>
+             status_in [ST_OK; ST_NUM_WORDS; ST_LANG; ST_CHECKSUM; ST_UNSUPPORTED; ST_MEMORY]
+               (snd (fst (cstep sgn fuel ext cs o)))
+         | _ => True
+         end.
+Proof. exact @code_status_range. Qed.
+Print Assumptions C14_code_tie_machine_status_range.
